@@ -2186,7 +2186,8 @@ class Qube(object):
         if isinstance(values, np.ndarray):
             if self.INTS_OK:
                 obj = Qube.__new__(type(self))
-                obj.__init__((values//1).astype(np.int_), self._mask_)
+                obj.__init__((values//1).astype(np.int_), self._mask_,
+                             nrank=self._nrank_, drank=self._drank_)
             else:
                 raise TypeError('%s object cannot have data type int'
                                 % type(self).__name__)
@@ -2194,7 +2195,8 @@ class Qube(object):
         else:
             if self.INTS_OK:
                 obj = Qube.__new__(type(self))
-                obj.__init__(int(values//1), self._mask_)
+                obj.__init__(int(values//1), self._mask_,
+                             nrank=self._nrank_, drank=self._drank_)
             else:
                 raise TypeError('%s object cannot have data type int'
                                 % type(self).__name__)
@@ -2221,7 +2223,8 @@ class Qube(object):
         if isinstance(values, np.ndarray):
             if self.BOOLS_OK:
                 obj = Qube.__new__(type(self))
-                obj.__init__(values.astype(np.bool_), self._mask_)
+                obj.__init__(values.astype(np.bool_), self._mask_,
+                             nrank=self._nrank_, drank=self._drank_)
             else:
                 raise TypeError('%s object cannot have data type bool'
                                 % type(self).__name__)
@@ -2230,7 +2233,8 @@ class Qube(object):
         else:
             if self.BOOLS_OK:
                 obj = Qube.__new__(type(self))
-                obj.__init__(bool(values), self._mask_)
+                obj.__init__(bool(values), self._mask_,
+                             nrank=self._nrank_, drank=self._drank_)
             else:
                 raise TypeError('%s object cannot have data type bool'
                                 % type(self).__name__)
